@@ -64,7 +64,7 @@ Qed.
 
 Lemma e2_inv_step : forall s a s', Inv s -> step s a = Some s' -> Inv s'.
 Proof.
-  intros s a s' I H. destruct a as [t rq|t| | |]; cbn in H.
+  intros s a s' I H. destruct a as [t rq|t| | | |t|t]; cbn in H.
   - destruct (e2_sf_start _ _ _ _ H) as [x [x' SF]]. exact (e2_inv_sf _ _ _ _ _ I SF).
   - assert (HTL : forall t a, gth s t = Some a -> TL t a) by (intros u b Hb; exact (proj1 (b_tl s (i_b s I) _ _ Hb))).
     destruct (e2_sf_resume _ _ _ HTL H) as [x [x' SF]]. exact (e2_inv_sf _ _ _ _ _ I SF).
@@ -75,6 +75,15 @@ Proof.
     + exact (e2_rinv_persist nat rev_key e_reverts rev_hold rev_miss v_revs _ _ I3 H E3).
   - destruct (v_batch s); [|discriminate]. inversion H. apply e2_inv_crash. exact I.
   - inversion H. apply e2_inv_crash. exact I.
+  - (* cancel: only [t_cancelled] of one thread changes, which [gth] does not show *)
+    destruct (e2_cancel_frame _ _ _ H) as (Hg&Ep&Ei&Eu&E1&E2&E3). destruct I as [B I1 I2 I3]. constructor.
+    + exact (e2_binv_ext _ _ Hg Ep Ei Eu B).
+    + exact (e2_rinv_ext N ik_key eik_key ik_hold ik_miss v_iks _ _ Hg Ep Ei E1 I1).
+    + exact (e2_rinv_ext N ref_key eref_key ref_hold ref_miss v_refs _ _ Hg Ep Ei E2 I2).
+    + exact (e2_rinv_ext nat rev_key e_reverts rev_hold rev_miss v_revs _ _ Hg Ep Ei E3 I3).
+  - (* the cancelled wait gives up: a thread step like the other error exits *)
+    assert (HTL : forall t a, gth s t = Some a -> TL t a) by (intros u b Hb; exact (proj1 (b_tl s (i_b s I) _ _ Hb))).
+    destruct (e2_sf_resume_cancelled _ _ _ HTL H) as [x [x' SF]]. exact (e2_inv_sf _ _ _ _ _ I SF).
 Qed.
 
 Lemma e2_inv_run : forall acts s s', Inv s -> run s acts = Some s' -> Inv s'.
@@ -339,3 +348,135 @@ Proof.
   destruct (e_reverts x) as [i|] eqn:Er; [|discriminate]. apply Nat.eqb_eq in Ex. subst i.
   exact (b_revtx s (i_b s I) x _ (e2_persisted_all _ _ Hx) Er).
 Qed.
+
+(* ---- cancellation: a queued request whose context is done gives up and gives everything back ------------------------ *)
+Lemma e2_resume_cancelled_at : forall s t s', resume_cancelled s t = Some s' ->
+  exists th, get_thread (threads s) t = Some th /\ t_gen th = gen s /\ t_pc th = PEnqueued /\ t_cancelled th = true /\
+    s' = to_state (gen s) (finish t th (RErr ELockCancelled) false true true true
+                             (if t_granted th then unlock t (of_state s) else dequeue t (of_state s))).
+Proof.
+  intros s t s' H. unfold resume_cancelled in H.
+  destruct (get_thread (threads s) t) as [th|] eqn:Hth; [|discriminate].
+  destruct (Nat.eqb (t_gen th) (gen s)) eqn:Hg; cbn [negb] in H; [|discriminate]. apply Nat.eqb_eq in Hg.
+  destruct (t_pc th) eqn:Hpc; try discriminate H.
+  destruct (t_cancelled th) eqn:Hc; [|discriminate H].
+  cbv zeta in H. inversion H. exists th. repeat split; auto.
+Qed.
+
+(* what the step does to the three reservation tables, the disk, the in-flight lists and the thread *)
+Theorem e2_cancelled_releases : forall s t s', reachable s -> step s (AResumeCancelled t) = Some s' ->
+  exists th, get_thread (threads s) t = Some th /\ t_pc th = PEnqueued /\ t_cancelled th = true /\
+    v_iks s' = (if N.eqb (rq_ik (t_req th)) 0 then v_iks s else remove_N (rq_ik (t_req th)) (v_iks s)) /\
+    v_refs s' = (if N.eqb (rq_ref (t_req th)) 0 then v_refs s else remove_N (rq_ref (t_req th)) (v_refs s)) /\
+    v_revs s' = (match rq_kind (t_req th) with KRevert => remove_nat (rq_revert (t_req th)) (v_revs s) | _ => v_revs s end) /\
+    persisted s' = persisted s /\ inflight s' = inflight s /\
+    exists th', get_thread (threads s') t = Some th' /\ t_pc th' = PFinished /\
+                t_resp th' = Some (RErr ELockCancelled) /\ t_entry th' = None /\ t_req th' = t_req th.
+Proof.
+  intros s t s' Hr H. cbn [step] in H. pose proof (e2_inv_reachable s Hr) as I.
+  destruct (e2_resume_cancelled_at _ _ _ H) as [th (Hth&Hg&Hpc&Hc&->)]. exists th.
+  split; [exact Hth|]. split; [exact Hpc|]. split; [exact Hc|].
+  assert (He : t_entry th = None).
+  { destruct (proj1 (b_tl s (i_b s I) _ _ (e2_gth_of_get _ _ _ Hth))) as (_&_&_&_&T4&_). cbn in T4. apply T4.
+    rewrite Hpc. reflexivity. }
+  unfold inflight. destruct (t_granted th); cbn [to_state finish v_iks v_refs v_revs persisted v_batch v_pending threads
+     andb dequeue u_iks u_refs u_revs u_persisted u_batch u_pending u_threads];
+    rewrite ?e2_unlock_iks, ?e2_unlock_refs, ?e2_unlock_revs, ?e2_unlock_persisted, ?e2_unlock_batch, ?e2_unlock_pending;
+    cbn [of_state u_iks u_refs u_revs u_persisted u_batch u_pending u_threads].
+  all: split; [destruct (N.eqb (rq_ik (t_req th)) 0); reflexivity|].
+  all: split; [destruct (N.eqb (rq_ref (t_req th)) 0); reflexivity|].
+  all: split; [reflexivity|]. all: split; [reflexivity|]. all: split; [reflexivity|].
+  all: eexists; split; [rewrite e2_get_set, Nat.eqb_refl; reflexivity|]; cbn; auto.
+Qed.
+
+Theorem e2_cancelled_releases_key : forall s t s', reachable s -> step s (AResumeCancelled t) = Some s' ->
+  exists th, get_thread (threads s) t = Some th /\
+    v_iks s' = (if N.eqb (rq_ik (t_req th)) 0 then v_iks s else remove_N (rq_ik (t_req th)) (v_iks s)) /\
+    persisted s' = persisted s.
+Proof. intros s t s' Hr H. destruct (e2_cancelled_releases s t s' Hr H) as [th (A&_&_&B0&_&_&C&_)]. eauto. Qed.
+
+Theorem e2_cancelled_releases_ref : forall s t s', reachable s -> step s (AResumeCancelled t) = Some s' ->
+  exists th, get_thread (threads s) t = Some th /\
+    v_refs s' = (if N.eqb (rq_ref (t_req th)) 0 then v_refs s else remove_N (rq_ref (t_req th)) (v_refs s)) /\
+    persisted s' = persisted s.
+Proof. intros s t s' Hr H. destruct (e2_cancelled_releases s t s' Hr H) as [th (A&_&_&_&B0&_&C&_)]. eauto. Qed.
+
+Theorem e2_cancelled_releases_rev : forall s t s', reachable s -> step s (AResumeCancelled t) = Some s' ->
+  exists th, get_thread (threads s) t = Some th /\
+    v_revs s' = (match rq_kind (t_req th) with KRevert => remove_nat (rq_revert (t_req th)) (v_revs s) | _ => v_revs s end) /\
+    persisted s' = persisted s.
+Proof. intros s t s' Hr H. destruct (e2_cancelled_releases s t s' Hr H) as [th (A&_&_&_&_&B0&C&_)]. eauto. Qed.
+
+(* ... and what that means in a reachable state: the request held the reservation itself, nobody holds it afterwards,
+   and no entry (on disk or in flight) carries the key / reference / revert target: a retry is a fresh request *)
+Theorem e2_cancelled_fresh : forall s t s', reachable s -> step s (AResumeCancelled t) = Some s' ->
+  exists th, get_thread (threads s) t = Some th /\
+    all_entries s' = all_entries s /\
+    (rq_ik (t_req th) <> 0%N ->
+       In (rq_ik (t_req th)) (v_iks s) /\ ~ In (rq_ik (t_req th)) (v_iks s') /\
+       forall x, In x (all_entries s') -> e_ik x <> rq_ik (t_req th)) /\
+    (rq_ref (t_req th) <> 0%N ->
+       In (rq_ref (t_req th)) (v_refs s) /\ ~ In (rq_ref (t_req th)) (v_refs s') /\
+       forall x, In x (all_entries s') -> e_ref x <> rq_ref (t_req th)) /\
+    (rq_kind (t_req th) = KRevert ->
+       In (rq_revert (t_req th)) (v_revs s) /\ ~ In (rq_revert (t_req th)) (v_revs s') /\
+       forall x, In x (all_entries s') -> e_reverts x <> Some (rq_revert (t_req th))).
+Proof.
+  intros s t s' Hr H. pose proof (e2_inv_reachable s Hr) as I.
+  destruct (e2_cancelled_releases s t s' Hr H) as [th (Hth&Hpc&_&Eik&Eref&Erev&Ep&Ei&_)]. exists th.
+  split; [exact Hth|].
+  assert (Ea : all_entries s' = all_entries s) by (unfold all_entries; rewrite Ep, Ei; reflexivity).
+  split; [exact Ea|]. rewrite Ea.
+  pose proof (e2_gth_of_get _ _ _ Hth) as Hg.
+  destruct (proj1 (b_tl s (i_b s I) _ _ Hg)) as (_&T1&_). cbn in T1.
+  assert (Htx : is_tx_kind (rq_kind (t_req th)) = true).
+  { destruct (is_tx_kind (rq_kind (t_req th))) eqn:E; [reflexivity|]. destruct (T1 eq_refl) as [Q _].
+    rewrite Hpc in Q. discriminate Q. }
+  split; [|split].
+  - intros Hk. assert (K : ik_key (t_req (ug th)) = Some (rq_ik (t_req th))).
+    { unfold ik_key. cbn. destruct (N.eqb (rq_ik (t_req th)) 0) eqn:Z; [apply N.eqb_eq in Z; contradiction|reflexivity]. }
+    assert (Z : N.eqb (rq_ik (t_req th)) 0 = false) by (apply N.eqb_neq; exact Hk).
+    split; [|split].
+    + apply (r_in _ _ _ _ _ _ s (i_ik s I) t (ug th) _ Hg K). cbn. rewrite Hpc. reflexivity.
+    + rewrite Eik, Z. intro Q. apply e2_In_remove_N in Q. destruct Q as [_ Q]. apply Q. reflexivity.
+    + intros x Hx Ex.
+      apply (r_miss _ _ _ _ _ _ s (i_ik s I) t (ug th) _ Hg K) with (x := x); [cbn; rewrite Hpc; reflexivity|exact Hx|].
+      apply e2_eik_key_of; [exact Hk|rewrite Ex; apply N.eqb_refl].
+  - intros Hk. assert (K : ref_key (t_req (ug th)) = Some (rq_ref (t_req th))).
+    { unfold ref_key. cbn. rewrite Htx. destruct (N.eqb (rq_ref (t_req th)) 0) eqn:Z; [apply N.eqb_eq in Z; contradiction|reflexivity]. }
+    assert (Z : N.eqb (rq_ref (t_req th)) 0 = false) by (apply N.eqb_neq; exact Hk).
+    split; [|split].
+    + apply (r_in _ _ _ _ _ _ s (i_ref s I) t (ug th) _ Hg K). cbn. rewrite Hpc. reflexivity.
+    + rewrite Eref, Z. intro Q. apply e2_In_remove_N in Q. destruct Q as [_ Q]. apply Q. reflexivity.
+    + intros x Hx Ex.
+      apply (r_miss _ _ _ _ _ _ s (i_ref s I) t (ug th) _ Hg K) with (x := x); [cbn; rewrite Hpc; reflexivity|exact Hx|].
+      apply e2_eref_key_of; [exact Hk|rewrite Ex; apply N.eqb_refl].
+  - intros Hk. assert (K : rev_key (t_req (ug th)) = Some (rq_revert (t_req th))).
+    { unfold rev_key. cbn. rewrite Hk. reflexivity. }
+    split; [|split].
+    + apply (r_in _ _ _ _ _ _ s (i_rev s I) t (ug th) _ Hg K). cbn. rewrite Hpc. reflexivity.
+    + rewrite Erev, Hk. intro Q. apply e2_In_remove_nat in Q. destruct Q as [_ Q]. apply Q. reflexivity.
+    + intros x Hx Ex.
+      exact (r_miss _ _ _ _ _ _ s (i_rev s I) t (ug th) _ Hg K ltac:(cbn; rewrite Hpc; reflexivity) x Hx Ex).
+Qed.
+
+Theorem e2_cancelled_ref_fresh : forall s t s', reachable s -> step s (AResumeCancelled t) = Some s' ->
+  exists th, get_thread (threads s) t = Some th /\ (rq_ref (t_req th) <> 0%N ->
+       In (rq_ref (t_req th)) (v_refs s) /\ ~ In (rq_ref (t_req th)) (v_refs s') /\
+       forall x, In x (all_entries s') -> e_ref x <> rq_ref (t_req th)).
+Proof.
+  intros s t s' Hr H. destruct (e2_cancelled_fresh s t s' Hr H) as [th (A&_&_&B&_)]. exists th. exact (conj A B).
+Qed.
+Theorem e2_cancelled_rev_fresh : forall s t s', reachable s -> step s (AResumeCancelled t) = Some s' ->
+  exists th, get_thread (threads s) t = Some th /\ (rq_kind (t_req th) = KRevert ->
+       In (rq_revert (t_req th)) (v_revs s) /\ ~ In (rq_revert (t_req th)) (v_revs s') /\
+       forall x, In x (all_entries s') -> e_reverts x <> Some (rq_revert (t_req th))).
+Proof.
+  intros s t s' Hr H. destruct (e2_cancelled_fresh s t s' Hr H) as [th (A&_&_&_&B)]. exists th. exact (conj A B).
+Qed.
+
+(* cancelling by itself changes nothing the three properties look at *)
+Theorem e2_cancel_changes_nothing : forall s t s', step s (ACancel t) = Some s' ->
+  persisted s' = persisted s /\ inflight s' = inflight s /\
+  v_iks s' = v_iks s /\ v_refs s' = v_refs s /\ v_revs s' = v_revs s.
+Proof. intros s t s' H. cbn [step] in H. destruct (e2_cancel_frame _ _ _ H) as (_&A&B0&_&C&D&E). auto. Qed.
